@@ -300,6 +300,10 @@ func (s *IndexedState) Add(ctx *Context, id string, x Map) (string, error) {
 	// start again when the location is loaded).
 	js, err := json.Marshal(s.IdToFact[id])
 	if err != nil {
+		// What can't be rendered (NaN from a script, say) can't be
+		// stored, and it can't stay in memory either: every search
+		// that finds it would fail.
+		s.undoAdd(ctx, id, previous, had)
 		return "", err
 	}
 	d := Pair{[]byte(id), js}
